@@ -269,7 +269,9 @@ CLAIMED = {
               "kept alive only by a local handle; (2) every new-expression flows directly into a smart pointer and there is "
               "no manual delete; (3) both conversion directions save the converted object while saves are enabled and return "
               "that same object, and every C++ entry that dispatches with a freshly built conversion state enables the saves "
-              "first (or is a script built-in reached only through a call node); (4) every call node that opens a call frame "
+              "first (or is a script built-in reached only through a call node) - the sibling obligation for references the API "
+              "hands to the host (eval<T&>/boxed_cast<T&> after a conversion) fails on the current tree and is a listed known "
+              "finding with replay; (4) every call node that opens a call frame "
               "saves its evaluated arguments before dispatch (two documented exemptions); (5) Object_Data::get: owning forms "
               "store a shared_ptr and are not references, non-owning forms are marked as references, the cached pointer "
               "comes from the stored object. Not decided: destruction counts/times on generated programs; references that "
